@@ -69,6 +69,7 @@ DEFAULT_CFG: dict[str, Any] = {
     "crc": False,
     "cks": "crc32",
     "imm_nak": True,
+    "root_tag": None,
     "ack_limit": 3,
     "nak_limit": 3,
     "check_limit": 2,
@@ -167,6 +168,8 @@ class Endpoint:
 
     # -- API calls -----------------------------------------------------------------------------
     def _call(self, api: str, fn, arg_desc, *args):
+        if self.w.call_hook is not None:
+            self.w.call_hook()  # (C11: another world of the process may run API calls of its own here)
         before = state_snapshot(self.h)
         cev = self.log.add("call", self.side, api=api, arg=arg_desc, before=before, qlen=before[5])
         vclock.use(self.w.clock)
@@ -272,6 +275,7 @@ class World:
         self.data = make_content(c["size"], c["content"]) if not c["metadata_only"] else b""
         self.sandbox: Path | None = None
         self._build_fs()
+        self.call_hook = None
         self._build_handlers()
         self.tid: TransactionId | None = None
 
@@ -298,6 +302,8 @@ class World:
             self.dst_inner.mkdir(root / "dstdir")
         else:
             nonce = f"{random.Random(c["size"] * 31 + zlib.crc32(repr(c["content"]).encode())).getrandbits(48):012x}"
+            if c["root_tag"]:
+                nonce = c["root_tag"]  # several users of one process whose (virtual) path names are the same
             root = Path(f"/cfdpmon-nonexistent-{nonce}")
             self.src_inner = MemFilestore()
             self.dst_inner = MemFilestore()
